@@ -46,3 +46,23 @@ P['C13'] = dict(
          thorough=dict(defines={'QLIM': 16})),
     dict(name='H13B3', src='C13_transport.cpp', tiers=('thorough',), covers=['precondition holds', 'end'], defines={'VCAP': 6, 'NS': 3, 'NK': 2, 'CRANGE': 2, 'QLIM': 6, 'FAMILY_B': None}, cfg=dict(fp='exact', merge=False)),
   ])
+
+LIBSRC = ['parameters.cpp', 'export.cpp', 'place_global/density_grid.cpp', 'place_global/density_legalizer.cpp', 'place_global/net_model.cpp', 'place_global/place_global.cpp',
+          'place_global/transportation.cpp', 'place_global/transportation_1d.cpp', 'place_detailed/abacus_legalizer.cpp', 'place_detailed/detailed_placement.cpp',
+          'place_detailed/incr_net_model.cpp', 'place_detailed/legalizer.cpp', 'place_detailed/place_detailed.cpp', 'place_detailed/row_legalizer.cpp',
+          'place_detailed/row_neighbourhood.cpp', 'place_detailed/tetris_legalizer.cpp', 'coloquinte.cpp']
+def lib_except(*ex): return [f for f in LIBSRC if f not in ex]
+BOOST_ASSUME = 'boost::polygon 90-degree set difference + get_rectangles modelled for one positive rectangle and holes (vertical slicing, stubs/include/boost/polygon/polygon.hpp); validated per run against real boost by native replay of sample paths'
+P['C15'] = dict(
+  design_ref='DESIGN.md section 3 C15',
+  level_text='For every row and every set of up to K obstacle rectangles (overlapping, partial height, touching, enclosing, degenerate, inverted) with symbolic coordinates the solver shows on the real Row::freespace code (against a model of boost::polygon): segments non-empty, full height, inside the row, disjoint, orientation kept, and for an ARBITRARY symbolic column q: q lies in a returned segment iff q is in the row and no non-degenerate obstacle meeting the row interior covers q. Circuit::computeRows is shown to pass exactly the extra obstacles plus the placed footprint of the cells that are fixed and obstructions (flags and orientations enumerated).',
+  text=dict(bounds=dict(quick='freespace: 1 row, <=1 obstacle, coordinates symbolic |v|<=2^22; computeRows: 1 cell (flags enumerated, 8 orientations symbolic), 1 row, <=1 extra obstacle, |v|<=64',
+                        thorough='freespace: <=2 obstacles; computeRows: 2 cells, at most 2 obstacles in total'),
+            outside='more than 2 obstacles per row; rows of non-positive width/height; boost internals (modelled)'),
+  assumptions=STD_ASSUME + [BOOST_ASSUME, 'rows have positive width and height'],
+  harnesses=[
+    dict(name='H15A', src='C15_freespace.cpp', covers=['freespace computed', 'end'], defines={'VCAP': 8, 'NOBS': 1, 'H15A': None}, cfg=dict(fp='exact'), split=4, native_srcs=lib_except('coloquinte.cpp', 'parameters.cpp'),
+         thorough=dict(defines={'NOBS': 2, 'VCAP': 10})),
+    dict(name='H15B', src='C15_freespace.cpp', covers=['end'], defines={'VCAP': 12, 'H15B': None, 'NC': 1, 'MAXOBS': 2}, cfg=dict(fp='exact'), split=5, native_srcs=lib_except('coloquinte.cpp', 'parameters.cpp'),
+         thorough=dict(defines={'NC': 2})),
+  ])
